@@ -99,11 +99,6 @@ class Run(object):
     # -- finish ------------------------------------------------------------
     def finish(self, write=True, quiet=False):
         from .index import AnalysisError
-        # floors
-        for name, r in sorted(self.rules.items()):
-            if r['sites'] < r['floor'] and not r['failed']:
-                raise AnalysisError('rule %s matched %d sites, below its floor %d '
-                                    '(the rule would pass vacuously)' % (name, r['sites'], r['floor']))
         known = [k for k in load_known()
                  if self.prop in k.get('properties', [k.get('property')])]
         known_active = {k['key']: k for k in known if k.get('status') == 'known'}
@@ -118,6 +113,13 @@ class Run(object):
                 known_hits.append(f)
             else:
                 violations.append(f)
+        # floors: a run without (unlisted) violations must have matched what was confirmed
+        # by hand; a run that reports violations is not a pass and may stop early
+        if not violations:
+            for name, r in sorted(self.rules.items()):
+                if r['sites'] < r['floor']:
+                    raise AnalysisError('rule %s matched %d sites, below its floor %d '
+                                        '(the rule would pass vacuously)' % (name, r['sites'], r['floor']))
         out = []
         for f in known_hits:
             out.append('KNOWN-FINDING: property=%s %s' % (self.prop, f.describe()))
